@@ -221,3 +221,16 @@ def run(ctx):
                    inspected or passthrough, 'the result is stored or forwarded without looking at None', b.loc(site))
     ctx.ob('4b write_node_plan-callers', 'anchor', WNP, 'write_node_plan has four call sites (root split, root rewrite, child rewrite, split child)', nsites >= 4, 'found %d' % nsites)
     shared.recursion_audit(ctx, '6', ['btree::'])
+    shared.header_slot_written_last(ctx, '7')
+    # a point read of a btree column does not depend on options that only mean something for hash columns (multitree): a column
+    # opened as a btree (btree_index wins in Column::open) answers get / get_size like the iterator does (F55)
+    for fn in ('db::DbInner::get', 'db::DbInner::get_size'):
+        b = ctx.body(fn)
+        if not b:
+            continue
+        for s2 in lib.sites_reaching(b, ['btree::BTreeTable::get']):
+            calls, fields, binops = lib.guard_influences(b, s2)
+            ctx.ob('8a btree-read-independent-of-hash-only-options %s' % fn, 'K3-guard', fn,
+                   'whether the btree lookup is reached does not depend on ColumnOptions.multitree', '.ColumnOptions.multitree' not in fields,
+                   'the lookup is reached only if the multitree flag is clear', b.loc(s2))
+
